@@ -149,8 +149,10 @@ class RotatorProfile(HeapProfile):
         if rng.random() < cfg.get("p_bad", 0.0):
             # a refused request between performed rotations (non-trivial rotation, so that
             # counting it would show in the next result)
-            why = rng.choice(["n_zero", "n_zero", "n_negative", "n_length", "method"])
+            why = rng.choice(["n_zero", "n_zero", "n_negative", "n_length", "method", "n_float", "n_float"])
             n = [rng.randint(2, 6) for _ in range(3)]
+            if why == "n_float":
+                n = [float(k) for k in n] if rng.random() < 0.5 else [n[0] + 0.5, n[1], n[2]]
             if why == "n_zero":
                 n[rng.randrange(3)] = 0
             elif why == "n_negative":
